@@ -160,6 +160,19 @@ class Table:
         return 'Table(\n| id  name  \n| 1   x     \n)'
 
 
+class HMemo:
+    """its printer builds its document once and returns the very same Doc object on every call
+    (documents are immutable values; the library itself shares module-level documents)"""
+
+    def __repr__(self):
+        return 'HMemo!'
+
+
+class Weird:
+    def __repr__(self):
+        return '<weird, not an expression>'
+
+
 class Holder:
     """unregistered; its __repr__ calls pformat(self.target) - a print nested inside the print that is
     showing the Holder, of a container that is on the outer print's active path. The nested call is
@@ -311,6 +324,11 @@ def build_corpus():
     add('comment_blank_lines', 'odd', [comment(1, 'one\n \ntwo'), trailing_comment([2, 3], 'ends with blanks   ')])
     add('str_trailing_blanks', 'odd', 'trailing blanks   ' * 8, dict(width=30))
     add('str_odd_chars', 'odd', ['\u2603 snowman', 'tab\there', 'nul\x00', 'quote\'"both', '\\backslash', '\U0001f600'], dict(width=20))
+    add('memo_doc', 'memo', HMemo())
+    add('memo_doc_nested', 'memo', {'m': [HMemo(), HMemo()]}, dict(width=30))
+    # a struct sequence whose repr cannot be parsed for field names, next to healthy ones of the same class
+    add('struct_unparsable', 'cache', time.struct_time((Weird(), 1, 1, 0, 0, 0, 0, 1, -1)), idfree=True)
+    add('struct_after_unparsable', 'cache', time.struct_time((1999, 1, 1, 0, 0, 0, 4, 1, -1)), dict(width=40))
     task = Task()
     add('task_owner', 'reentrant', task.owner, idfree=False)
     add('task', 'reentrant', {'t': task}, idfree=False)
@@ -424,6 +442,16 @@ def register_harness():
         def evaluator(indent, column, page_width, ribbon_width):
             return 'Reentrant<%s>' % P.pformat(v.inner, width=200).replace('\n', ' ')
         return contextual(evaluator)
+
+    from prettyprinter.doc import always_break, concat as _concat, nest as _nest, HARDLINE as _HARDLINE
+    memo = {}
+
+    @register_pretty(HMemo)
+    def pmemo(v, ctx):
+        if 'doc' not in memo:
+            memo['doc'] = always_break(_concat([
+                'HMemo(', _nest(4, _concat([_HARDLINE, 'a=1,', _HARDLINE, 'b=2'])), _HARDLINE, ')']))
+        return memo['doc']
 
     @register_pretty(HTcOnce)
     def ptc_once(v, ctx, trailing_comment=None):
